@@ -50,7 +50,7 @@ THEOREMS = [
 LEAN_MODULES = ["PorepyVerif.C20.Props"]
 AUDIT = "PorepyVerif/C20/Audit.lean"
 DRIVER = "PorepyVerif/C20/Driver.lean"
-N = {"quick": 90, "thorough": 6000}
+N = {"quick": 90, "thorough": 5000}
 TOL = 1e-10          # oracle tolerance (relative to the size of the coordinates)
 CTOL = 1e-9          # correspondence tolerance (class T)
 
@@ -78,6 +78,9 @@ TRUSTED = [
     "modelled, not verified: the trigonometric step of project_plane_matrix / project_line_matrix: the model uses cos(arccos c) = c and sin(arccos c) = sqrt(1 - c^2) "
     "in rotation_matrix; points_are_planar / the numerical 'active dimension' thresholds of map_grid are reproduced for the correspondence, the theorem "
     "map_grid_flat_real states the exact counterpart (third local coordinate constant)",
+    "generator restriction (precise): 3-d grids that contain a sub-triangle of exactly zero area (a face edge collinear with the mean of the face's nodes, e.g. the "
+    "prism over the L-shaped polygon) are not put into the 'scaled' stratum; for them the absolute tolerance -1e-12 of _compute_geometry_3d decides by rounding "
+    "(known finding C20, replayed on every run from known_findings.d/C20.json); unscaled they are generated and stay far from the tolerance",
     "modelled, not verified: numpy / scipy.sparse glue that gathers node coordinates per face and per cell (done by the harness when it resolves the grid "
     "for the driver), np.bincount, sparse products, np.unique(return_index)",
 ]
@@ -396,7 +399,8 @@ def gen_case(rng, tier):
             "nodes": [[frac(v) for v in row] for row in nodes], "fn": fn, "cf": cf, "motion": gen_motion(rng)}
     if rng.random() < 0.4:
         case["pre"] = gen_motion(rng)
-    if rng.random() < 0.15:
+    if rng.random() < 0.15 and not has_zero_subtriangle(case):
+        # (grids with a sub-tetrahedron of exactly zero volume are not scaled: see known finding C20 / TRUSTED)
         strata.append("scaled")
         case["scale"] = rng.choice([-20, -10, 10, 20])     # all coordinates (and the translation) times 2^k (2^30 * 256 exceeds what map_grid's absolute planarity tolerance 1e-5 admits)
     if len(cf["indptr"]) - 1 == 1:
@@ -439,6 +443,25 @@ def base_nodes(case):
     if case.get("pre"):
         nodes = apply_motion(case["pre"], nodes)
     return nodes
+
+
+def has_zero_subtriangle(case):
+    """3-d: some face has an edge collinear with the mean of the face's nodes (e.g. the L-shaped face, whose node mean is its
+    re-entrant corner): a sub-triangle of exactly zero area, hence sub-tetrahedra of exactly zero volume"""
+    if case["dim"] != 3:
+        return False
+    nodes = [[F(v) for v in row] for row in case["nodes"]]
+    fn = case["fn"]
+    for f in range(len(fn["indptr"]) - 1):
+        ns = fn["indices"][fn["indptr"][f]:fn["indptr"][f + 1]]
+        P = [[nodes[i][k] for i in range(3)] for k in ns]
+        c = [sum(p[i] for p in P) / len(P) for i in range(3)]
+        for j in range(len(P)):
+            p, q = P[j], P[(j + 1) % len(P)]
+            u, w = [q[i] - p[i] for i in range(3)], [c[i] - p[i] for i in range(3)]
+            if (u[1] * w[2] - u[2] * w[1], u[2] * w[0] - u[0] * w[2], u[0] * w[1] - u[1] * w[0]) == (0, 0, 0):
+                return True
+    return False
 
 
 def sigma(case):
@@ -563,8 +586,11 @@ def oracle(case):
     if "err" in g0 or "err" in g1:
         if g0 == g1:
             return None
+        key = f"{tag}:error-not-invariant"
+        if {g0.get("err", "ok"), g1.get("err", "ok")} == {"ok", "ValueError"} and has_zero_subtriangle(case):
+            key = "3d:ValueError-depends-on-motion:zero-volume-subtetrahedron-vs-absolute-tolerance"
         return {"what": f"compute_geometry: reference grid gives {g0.get('err', 'a result')}, moved grid gives {g1.get('err', 'a result')} ({case['kind']})",
-                "key": f"{tag}:error-not-invariant"}
+                "key": key}
     R = np.array([[float(v) for v in row] for row in quat_matrix(case["motion"]["q"])])
     t = np.array([float(F(v)) for v in case["motion"]["t"]])
     s = max(_scale(case, b), _scale(case, m))
